@@ -685,9 +685,9 @@ def _generate_reuse(ctx):
     for i in range(ctx.n(3, 40)):
         k, j = r.randrange(1, N), r.randrange(1, N)
         c1, c2 = rscalar(r), r.randrange(1, N)
-        ks = [c1, c2, c1, r.choice([0, 1, 2, N - 1, N, N + 1, -1]), c2, c1 + N]
+        ks = [c1, c2, c1, r.choice([0, 1, 2, N - 1, N, N + 1, -1]), c2, c1 + N, c2 + (1 << 256)]
         t1 = r.randrange(1, N)
-        ts = [t1, r.choice([0, 1, N - 1, N, -k, N - k]), t1, rscalar(r)]
+        ts = [t1, r.choice([0, 1, N - 1, N, -k, N - k]), t1, rscalar(r), t1 + (1 << 256), t1 + N, -t1, t1 % (1 << 128)]
         ctx.label("reuse/one-secp-point-many-operations")
         yield ("prop", "s256_reuse", [k, j, ks, ts])
     for i in range(ctx.n(6, 100)):
